@@ -34,6 +34,7 @@ just started (`updSilent`); the processor handed to `pmStep` reads the current v
 import BlueskyVerif.Gen.Mutators
 import BlueskyVerif.Gen.Wrappers
 import BlueskyVerif.Gen.GeneratedPaired
+import BlueskyVerif.Gen.PairedDuring
 
 namespace BlueskyVerif.Gen
 
@@ -49,27 +50,8 @@ structure RespView (R : Type) where
 section
 variable {R E : Type} [Inhabited R] [DecidableEq R] [PyExc E]
 
-/-- plans over concrete messages; return values are responses -/
-abbrev PBeh (R E : Type) := Beh PMsg R R E
-
 /-- `return (yield from g)` -/
 def Beh.retFrom {M V : Type} [Inhabited V] (g : Beh M R V E) : Beh M R V E := Beh.bind g Beh.pure
-
-/-! ### messages created by the wrappers (fresh objects; `ident` starts with 9) -/
-
-def openRunMsg (md : Option Int) : PMsg := { ident := [9, 0], cmd := .openRun, num := md }
-def closeRunMsg (st : Option ExitStatus) (reason : Option Nat) : PMsg :=
-  { ident := [9, 1], cmd := .closeRun, status := st, reason := reason }
-/-- `Msg(cmd, dev, group=g)` -/
-def devMsg (cmd : Command) (d : Dev) (g : Option Nat := none) : PMsg :=
-  { ident := [9, 2, d], cmd := cmd, obj := some d, group := g }
-def waitMsg (g : Nat) : PMsg := { ident := [9, 3], cmd := .wait, group := some g }
-/-- `Msg('subscribe', None, func, name)` -/
-def subscribeMsg (name func : Nat) : PMsg :=
-  { ident := [9, 4], cmd := .subscribe, num := some func, group := some name }
-/-- `Msg('unsubscribe', None, token=token)` -/
-def unsubscribeMsg (token : Option Int) : PMsg := { ident := [9, 5], cmd := .unsubscribe, num := token }
-def suspenderMsg (cmd : Command) (s : Nat) : PMsg := { ident := [9, 6], cmd := cmd, num := some s }
 
 /-- the `close_run(...)` message of a call described by `a`, `e` being the caught exception -/
 def CloseArgs.msg (info : ExcInfo E) (a : CloseArgs) (e : Option E) : PMsg :=
@@ -81,9 +63,6 @@ def CloseArgs.msg (info : ExcInfo E) (a : CloseArgs) (e : Option E) : PMsg :=
     (if a.reason then e.map info.text else none)
 
 /-! ### run_wrapper -/
-
-/-- `open_run(md)` / `close_run(..)`: `return (yield Msg(..))` -/
-def oneMsg (m : PMsg) : PBeh R E := (Prog.single id m).beh
 
 /-- run_wrapper's `except_plan(e)` -/
 def rwExceptPlan (info : ExcInfo E) (e : E) : PBeh R E :=
@@ -330,27 +309,6 @@ def lazilyStageWrapper (fuel : Nat) (view : RespView R) (t : DevTree) (plan : PB
   Beh.retFrom (finalizeClosure unstage body)
 
 /-! ### monitor_during_wrapper / fly_during_wrapper -/
-
-/-- `monitor_msgs`, `unmonitor_msgs`, `kickoff_msgs`, `complete_msgs`, `collect_msgs` for the device
-    list `devs` (kickoff group 0, complete group 1) -/
-def partMsgs (devs : List Dev) : InsertPart → List PMsg
-  | .monitor => devs.map (devMsg .monitor)
-  | .unmonitor => devs.map (devMsg .unmonitor)
-  | .kickoff => devs.map (devMsg .kickoff · (some 0)) ++ (if devs.isEmpty then [] else [waitMsg 0])
-  | .complete => devs.map (devMsg .complete · (some 1)) ++ (if devs.isEmpty then [] else [waitMsg 1])
-  | .collect => devs.map (devMsg .collect)
-
-/-- `insert_after_open`: `(single_gen(msg), new_gen())` -/
-def afterOpenProc (parts : List InsertPart) (devs : List Dev) : Proc PMsg R R E := fun _ m =>
-  if m.cmd = .openRun then
-    (some (oneMsg m), some (Prog.msgs (parts.flatMap (partMsgs devs)) (.ret default)).beh)
-  else (none, none)
-
-/-- `insert_before_close`: `(new_gen(), None)`, new_gen = the lists, then `yield msg` -/
-def beforeCloseProc (parts : List InsertPart) (devs : List Dev) : Proc PMsg R R E := fun _ m =>
-  if m.cmd = .closeRun then
-    (some (Prog.msgs (parts.flatMap (partMsgs devs) ++ [m]) (.ret default)).beh, none)
-  else (none, none)
 
 /-- `plan2 = plan_mutator(plan_mutator(plan, insert_after_open), insert_before_close)` -/
 def duringWrapper (fuel : Nat) (after before : List InsertPart) (devs : List Dev) (plan : PBeh R E) :
